@@ -229,7 +229,7 @@ func runRpm(r *hx.Run, rnd *hx.Rand, cfg hx.Config) error {
 			infos[j] = g.p.opInfo()
 		}
 		dir := rnd.Pick("var/lib/rpm", "var/lib/rpm", "usr/lib/sysimage/rpm", "opt/chroot/var/lib/rpm")
-		kind := rnd.Pick("sqlite", "ndb")
+		kind := rnd.Pick("sqlite", "ndb", "ndb")
 		var ents []ent
 		switch kind {
 		case "sqlite":
@@ -239,7 +239,26 @@ func runRpm(r *hx.Run, rnd *hx.Rand, cfg hx.Config) error {
 			}
 			ents = append(ents, ent{path: dir + "/rpmdb.sqlite", data: b})
 		case "ndb":
-			ents = append(ents, ent{path: dir + "/Packages.db", data: rpmNdb(blobs)})
+			lay := ndbFresh(len(blobs))
+			if rnd.Chance(2, 3) {
+				// a database with history: erased packages, reused slots
+				lay = ndbHistory(rnd, len(blobs))
+				r.Count(fmt.Sprintf("rpm:ndb:history:slot-pages:%d", lay.npages))
+				// the headers are met in slot order
+				o := lay.slotOrder()
+				db2, infos2 := make([]rpmGT, len(db)), make([]string, len(db))
+				for k, i := range o {
+					db2[k], infos2[k] = db[i], infos[i]
+				}
+				if len(o) > 0 && o[0] != 0 {
+					r.Count("rpm:ndb:history:reordered")
+				}
+				ents = append(ents, ent{path: dir + "/Packages.db", data: rpmNdbLayout(blobs, lay)})
+				db, infos = db2, infos2
+			} else {
+				r.Count("rpm:ndb:fresh")
+				ents = append(ents, ent{path: dir + "/Packages.db", data: rpmNdbLayout(blobs, lay)})
+			}
 		}
 		r.Count("rpm:container:" + kind)
 		r.Count("rpm:headers:" + sizeBucket(k))
@@ -310,6 +329,44 @@ func runRpm(r *hx.Run, rnd *hx.Rand, cfg hx.Config) error {
 		}
 		r.Op("rpm "+p.opInfo()+" "+q.opInfo(), out, true)
 		r.Count("rpm:odd-source-nevr")
+	}
+	// fixed defect 857f8c86 and the shapes around it: fixed ndb layouts with three packages
+	{
+		mk := func(n string) rpmPkg {
+			return rpmPkg{name: n, version: "1", release: "1", arch: "noarch", srpm: n + "-1-1.src.rpm"}
+		}
+		ps := []rpmPkg{mk("a"), mk("b"), mk("c")}
+		blobs := [][]byte{ps[0].blob(), ps[1].blob(), ps[2].blob()}
+		for _, c := range []struct {
+			what string
+			l    ndbLayout
+		}{
+			{"free slot in the middle (an erased package)", ndbLayout{npages: 1, slot: []int{0, 2, 3}, index: []uint32{1, 3, 4}, blobSeq: []int{0, 1, 2}, gapBlks: []int{0, 0, 0}, nextIdx: 5}},
+			{"free slots at the start", ndbLayout{npages: 1, slot: []int{5, 6, 9}, index: []uint32{6, 7, 8}, blobSeq: []int{0, 1, 2}, gapBlks: []int{0, 0, 0}, nextIdx: 9}},
+			{"the newest package reuses the first slot (highest index first)", ndbLayout{npages: 1, slot: []int{1, 0, 2}, index: []uint32{1, 5, 3}, blobSeq: []int{2, 0, 1}, gapBlks: []int{1, 0, 3}, nextIdx: 6}},
+			{"packages in the second slot page", ndbLayout{npages: 2, slot: []int{3, 260, 400}, index: []uint32{2, 3, 4}, blobSeq: []int{0, 1, 2}, gapBlks: []int{0, 0, 0}, nextIdx: 5}},
+			{"the highest index was erased", ndbLayout{npages: 1, slot: []int{0, 1, 2}, index: []uint32{1, 2, 3}, blobSeq: []int{0, 1, 2}, gapBlks: []int{0, 0, 0}, nextIdx: 9}},
+			{"blobs written in reverse order", ndbLayout{npages: 1, slot: []int{0, 1, 2}, index: []uint32{1, 2, 3}, blobSeq: []int{2, 1, 0}, gapBlks: []int{2, 0, 1}, nextIdx: 4}},
+		} {
+			got := scanRpm([]ent{{path: "var/lib/rpm/Packages.db", data: rpmNdbLayout(blobs, c.l)}})
+			var infos []string
+			for _, i := range c.l.slotOrder() {
+				infos = append(infos, ps[i].opInfo())
+			}
+			out := "err"
+			if !got.err && !got.panic {
+				out = rpmProto(got.tuples)
+			}
+			r.Op("rpm "+strings.Join(infos, " "), out, true)
+			names := map[string]bool{}
+			for _, t := range got.tuples {
+				names[t.name] = true
+			}
+			if got.err || got.panic || len(got.tuples) != 3 || !names["a"] || !names["b"] || !names["c"] {
+				r.Fail("", fmt.Sprintf("rpm ndb: Packages.db with packages a, b, c in slots %v with indexes %v (%s): reported %v", c.l.slot, c.l.index, c.what, rpmProto(got.tuples)))
+			}
+			r.Count("rpm:ndb:fixed-layouts")
+		}
 	}
 	// no database: nothing
 	if o := scanRpm([]ent{{path: "var/lib/rpm/other", data: []byte("x")}}); o.err || len(o.tuples) != 0 {
